@@ -15,7 +15,7 @@ from __future__ import annotations
 import ast
 
 from ..model import AnchorError, norm, walk_no_nested
-from ..util import cfg_of, node_calls, call_attr, assigned_attrs
+from ..util import cfg_of, node_calls, call_attr, assigned_attrs, local_single_defs
 from ..cfg import facts_at
 
 EXPLANATION = __doc__
@@ -67,7 +67,7 @@ def run(ctx) -> None:
         raise AnchorError("no store_recent_run call in FromEngine.run_stopped")
     for s in stores:
         inst = f"run_stopped: {s.text()}"
-        facts = facts_at(g2, s)
+        facts = facts_at(g2, s, local_single_defs(stopped))
         has_run_true = any(a.endswith(".has_run()") and pol for a, pol in facts)
         p = g2.path_to_exit_avoiding([s.id], lambda n: n.id != s.id and node_calls(n, "reset_run"),
                                      include_raise=False, follow_exc=True)
@@ -99,7 +99,7 @@ def run(ctx) -> None:
                 elif fn is started:
                     gg = cfg_of(fn)
                     nodes = gg.node_containing(c)
-                    facts = set().union(*(facts_at(gg, n) for n in nodes)) if nodes else set()
+                    facts = set().union(*(facts_at(gg, n, local_single_defs(fn)) for n in nodes)) if nodes else set()
                     mism = any("run_id" in a and "==" in a and not pol for a, pol in facts)
                     hasrun = any((a.endswith(".has_run()") and pol) for a, pol in facts)
                     if mism and hasrun:
